@@ -10,6 +10,9 @@ package headers
 //@ func (h *Authorization) Unmarshal
 //@   assert[C10]@return#6 strcount(string(tmp), ":") == 0
 //@   ensures[C10] err == nil && h.Method == AuthMethodBasic ==> strcount(h.Username, ":") == 0
+// The same fact is what the Basic round trip of C09 needs: Marshal joins user and password with the
+// first ':', so parsing must split at the first ':' (the user part holds none).
+//@   ensures[C09] err == nil && h.Method == AuthMethodBasic ==> strcount(h.Username, ":") == 0
 //@   modifies fields(h), fresh
 
 // Frame of the Transport parser, used where Transports.Unmarshal calls it in a loop; its own
